@@ -33,6 +33,38 @@ def register(claim, na):
           "The path algebra (common prefix, strip/join round trip) is value-level and explicitly not claimed.",
           "trusts HashSet de-duplication, slice::sort ordering of OsString (byte order), Path::strip_prefix/common-prefix arithmetic (undecided remainder)",
           "DESIGN.md section 5 C17")
-    for p in ["C01", "C02", "C03", "C04", "C05", "C06", "C07", "C08", "C09", "C10", "C11", "C12", "C13", "C14",
-              "C15", "C18"]:
+    JT = ("THIR path enumeration of the job task's handlers (every arm, every Ok/Err exit, awaits and loops collapsed) projected onto an "
+          "effect alphabet, plus MIR dominance / must-pass / def-use rules on recv, Flag, Ticket, send_controls")
+    claim("C04", "other", JT + "; typestate of CommandState along every handler path",
+          "Decides necessary conditions on every path: processes are spawned only in CommandState::spawn, which refuses while Running; along all "
+          "handler paths (from every state class) reset()/overwrites of the state happen only when no child is running or after kill+wait both "
+          "succeeded with the collected status; previous_run never owns a child; KillOnDrop is applied on every path. Sequences of controls are "
+          "covered compositionally (handler summaries over all entry states), not explored.",
+          "trusts process-wrap/kernel semantics of kill()/wait(), rustc THIR/MIR; child behaviour and timing are not modelled",
+          "DESIGN.md section 5 C04, Appendix A")
+    claim("C06", "other", JT + "; coupling invariant (restart marker <=> restart timer) over handler paths x entry states; timer arithmetic summaries",
+          "Decides: signal before arming, no kill in graceful arms, until = now + grace and is_past = until <= now, normal queue read only without a "
+          "timer, forced control only after expiry and with the timer cleared, and the invariant that makes the replacement start exactly once. "
+          "Wall-clock behaviour (timer accuracy, signal delivery) is not decided.",
+          "trusts tokio sleep_until/Instant, nix signal delivery; admissible entry states of handlers are justified by R06.3 + the API priority table",
+          "DESIGN.md section 5 C06, Appendix A")
+    claim("C07", "other", JT + "; flag-token discipline (raised or handed to a holder on every path), wake protocol of Flag, multi-waiter lint",
+          "Decides on every path of every control arm and of the process-end handler that the completion flag is raised after the effects or handed "
+          "to a holder exactly when completion is deferred; flags leaving holders are raised; the task's exits raise job-gone and the select! has an "
+          "else branch; Flag::raise always reaches the wake-all step after storing; Flag::poll re-checks after registering; no single-slot waker is "
+          "shared between clones. Scheduler latency ('promptly') is not decided.",
+          "trusts tokio task scheduling, Mutex/Waker semantics; task abortion skips job-gone by design; user hooks get shared references only",
+          "DESIGN.md section 5 C07, Appendix A")
+    claim("C09", "other", JT + "; comparison of per-control effect rows with spec/control_semantics.json (transcribed from the API docs)",
+          "For each of the 17 controls and each condition (running / not running, Ok / Err of each fallible step) the ordered effects on all paths "
+          "equal the documented row, no undocumented path exists, the spawn hook runs exactly once before each spawn with the right context, and "
+          "each public Job method enqueues the documented controls. Compositional (per-control summaries), not a sequence exploration.",
+          "trusts the transcription of the docs into spec/control_semantics.json (reviewed row by row against job.rs/messages.rs docs)",
+          "DESIGN.md section 5 C09")
+    claim("C10", "other", "MIR dominance order in PriorityReceiver::recv, def-use pairing of channel ends, THIR tables for PrioritySender::send and the Job API, send_controls loop shape",
+          "Decides: expired timer > urgent > high is checked in that order before any blocking wait, normal is waited on only without a timer, each "
+          "priority maps to its own channel on both ends, multi-control operations are enqueued back to back at one priority and return the last "
+          "ticket, single consumer, no re-queueing. FIFO-ness of tokio mpsc is trusted.",
+          "trusts tokio unbounded mpsc FIFO order and select! semantics", "DESIGN.md section 5 C10")
+    for p in ["C01", "C02", "C03", "C05", "C08", "C11", "C12", "C13", "C14", "C15", "C18"]:
         na(p, PENDING)
